@@ -15,6 +15,7 @@
 package c13
 
 import (
+	"crypto/elliptic"
 	"fmt"
 	"math/big"
 	"runtime"
@@ -61,7 +62,19 @@ type run struct {
 	piBwc *mta.ProofBobWC
 	pt    *crypto.ECPoint // b*G (MtAwc)
 	done  bool            // all honest steps succeeded
+	ed    bool            // run over edwards25519 instead of secp256k1 (the API takes the curve as a parameter)
 }
+
+var edCurve = tss.Edwards()
+
+func (x *run) ec() elliptic.Curve {
+	if x.ed {
+		return edCurve
+	}
+	return tss.S256()
+}
+
+func (x *run) q() *big.Int { return x.ec().Params().N }
 
 func try(f func()) (pan string) {
 	defer func() {
@@ -110,7 +123,11 @@ func (x *run) record(kv ...interface{}) map[string]string {
 	return m
 }
 
-func pointOf(k *big.Int) (*crypto.ECPoint, error) {
+func pointOf(x *run, k *big.Int) (*crypto.ECPoint, error) {
+	if x.ed {
+		p := ref.Ed25519.BaseMul(k)
+		return crypto.NewECPoint(edCurve, p.X, p.Y)
+	}
 	p := ref.Secp256k1.BaseMul(k)
 	return crypto.NewECPoint(tss.S256(), p.X, p.Y)
 }
@@ -120,7 +137,6 @@ type chk struct {
 	q     *big.Int
 	evals int64
 }
-
 
 // keep snapshots the integers handed to a library call (secrets, ciphertexts, both parameter sets, Alice's
 // key, the public point); the returned function reports any of them that the call changed.
@@ -143,7 +159,7 @@ func (c *chk) keep(fn string, x *run, more ...*big.Int) func() {
 
 // bob runs Bob's step of the right variant on (possibly altered) cA with the given public point.
 func (c *chk) bob(x *run, cA *big.Int, pt *crypto.ECPoint, label string) (beta, cB *big.Int, piB *mta.ProofBob, piBwc *mta.ProofBobWC, err error, pan string) {
-	ec := tss.S256()
+	ec := x.ec()
 	rd := core.NewDRBG("c13/bob/" + x.name + "/" + label)
 	pkA := &x.A.sk.PublicKey
 	args := []*big.Int{cA}
@@ -163,7 +179,7 @@ func (c *chk) bob(x *run, cA *big.Int, pt *crypto.ECPoint, label string) (beta, 
 
 // alice runs Alice's final step of the right variant on (possibly altered) cB / public point / proof.
 func (c *chk) alice(x *run, cB *big.Int, piB *mta.ProofBob, piBwc *mta.ProofBobWC, pt *crypto.ECPoint) (alpha *big.Int, err error, pan string) {
-	ec := tss.S256()
+	ec := x.ec()
 	pkA := &x.A.sk.PublicKey
 	args := []*big.Int{x.cA, cB}
 	if pt != nil {
@@ -181,8 +197,8 @@ func (c *chk) alice(x *run, cB *big.Int, piB *mta.ProofBob, piBwc *mta.ProofBobW
 }
 
 func (c *chk) honest(x *run) {
-	r, q := c.r, c.q
-	ec := tss.S256()
+	r, q := c.r, x.q()
+	ec := x.ec()
 	cls := x.a.n + "*" + x.b.n
 	atomic.AddInt64(&c.evals, 1)
 	canon := fmt.Sprintf("run|%s|A%d|B%d|%s", x.variant, x.A.idx, x.B.idx, cls)
@@ -211,7 +227,7 @@ func (c *chk) honest(x *run) {
 	}
 	// Bob
 	if x.variant == "MtAwc" {
-		if x.pt, err = pointOf(x.b.v); err != nil {
+		if x.pt, err = pointOf(x, x.b.v); err != nil {
 			r.Violate("infrastructure/reference-point-not-accepted", "b*G computed by the reference curve is refused by NewECPoint: "+err.Error(), x.record())
 			return
 		}
@@ -261,7 +277,7 @@ func (c *chk) honest(x *run) {
 		if b1.Sign() == 0 {
 			b1.SetInt64(1) // b = q-1: (b+1)*G is the identity; use 1*G (still != b*G)
 		}
-		wrong, err := pointOf(b1)
+		wrong, err := pointOf(x, b1)
 		if err != nil {
 			r.Violate("infrastructure/reference-point-not-accepted", "(b+1)*G computed by the reference curve is refused by NewECPoint: "+err.Error(), x.record())
 			return
@@ -436,6 +452,32 @@ func Run(r *core.Run) {
 			}
 		}
 	}
+	// the same exchange over the library's other curve (the MtA functions take the curve as a parameter):
+	// first parameter pair, boundary and generic secrets modulo the edwards25519 group order
+	{
+		qe := edCurve.Params().N
+		ge := func(label string) *big.Int {
+			g := new(big.Int).SetBytes(core.Bytes("c13/generic-ed/"+label, 48))
+			return g.Mod(g, qe)
+		}
+		ale := []scalar{{"0", big.NewInt(0)}, {"1", big.NewInt(1)}, {"q-1", new(big.Int).Sub(qe, big.NewInt(1))}, {"generic", ge("a")}, {"generic'", ge("b")}}
+		p := pairs[0]
+		for _, variant := range []string{"MtA", "MtAwc"} {
+			for _, a := range ale {
+				for _, b := range ale {
+					if variant == "MtAwc" && b.v.Sign() == 0 {
+						continue
+					}
+					x := &run{id: len(runs), variant: variant, A: sets[p[0]], B: sets[p[1]], a: a, b: b, ed: true}
+					x.name = fmt.Sprintf("%s/ed25519/A%d/B%d/%s/%s", variant, p[0], p[1], a.n, b.n)
+					x.session = []byte(fmt.Sprintf("c13-session-ed-A%d-B%d", p[0], p[1]))
+					runs = append(runs, x)
+					g := fmt.Sprintf("%s/ed25519/%d/%d", variant, p[0], p[1])
+					groups[g] = append(groups[g], x)
+				}
+			}
+		}
+	}
 	r.Set("honest_runs_planned", len(runs))
 	var cut int32
 	core.ParallelFor(len(runs), runtime.NumCPU(), func(i int) {
@@ -461,7 +503,11 @@ func Run(r *core.Run) {
 		if !x.done {
 			continue
 		}
-		g := groups[fmt.Sprintf("%s/%d/%d", x.variant, x.A.idx, x.B.idx)]
+		gk := fmt.Sprintf("%s/%d/%d", x.variant, x.A.idx, x.B.idx)
+		if x.ed {
+			gk = fmt.Sprintf("%s/ed25519/%d/%d", x.variant, x.A.idx, x.B.idx)
+		}
+		g := groups[gk]
 		var other *run
 		for k := 1; k < len(g); k++ {
 			cand := g[(indexOf(g, x)+k)%len(g)]
